@@ -346,3 +346,14 @@ def run(ctx, eng):
     ctx.assume('HPACK round-trip fidelity, byte equality of bodies and '
                'programs of unbounded length are not decided; arbitrary '
                'chunking is decided under C21')
+    # necessary conditions decided in detail by sibling checks
+    cm.include(ctx, eng, 'C03', {'ARITH.amount', 'ARITH.guard',
+                                 'ATOM.window'},
+               'what one side sends within its view of the windows the '
+               'other side accepts: both sides charge the same amount')
+    cm.include(ctx, eng, 'C04', {'FLOW.charge', 'ARITH.consume'},
+               'the receiver charges exactly the flow-controlled length')
+    cm.include(ctx, eng, 'C23', {'FLOW.priority-frame',
+                                 'FLOW.priority-handler', 'PAIR.reassembly'},
+               'priority fields arrive as sent')
+    cm.include(ctx, eng, 'C26', {'FLOW.ping'}, 'pings are answered')
